@@ -43,6 +43,8 @@ class Run(object):
         self.pause_requested = False
         self.cancel_requested = False
         self.history = []  # concrete ops applied
+        self.nsteps = 0
+        self.controls = sorted([list(c) for c in (scn.get("controls") or [])])
 
     # ---------------------------------------------------------------- outcome of an action
     def outcome(self, a):
@@ -77,10 +79,14 @@ class Run(object):
                     ops.append(("pend", a))
         if self.pauses < f["pause"] and s in (st.RUNNING, st.RESUMING):
             ops.append(("pause",))
+            if d.inflight:
+                ops.append(("pause",))
         if s in (st.PAUSED, st.PAUSING) and self.pause_requested and not d.dormant:
             ops.append(("resume",))
         if self.cancels < f["cancel"] and s in (st.RUNNING, st.PAUSING, st.PAUSED, st.RESUMING):
             ops.append(("cancel",))
+            if f["cancel"] > 1 and d.inflight:
+                ops.append(("cancel",))
         for _ in range(f["restore"]):
             ops.append(("restore",))
         for _ in range(f["badreq"]):
@@ -112,7 +118,7 @@ class Run(object):
             return {"op": "req", "status": BADREQ[(choice // 11) % len(BADREQ)], "bad": True}
         raise ValueError(sel)
 
-    def step(self, op):
+    def step(self, op, _ctl=False):
         self.history.append(op)
         rec = self.d.apply(op)
         if op["op"] == "req" and not rec["rejected"]:
@@ -120,7 +126,29 @@ class Run(object):
                 self.pause_requested = True
             if op["status"] in (st.CANCELING, st.CANCELED):
                 self.cancel_requested = True
+        if not _ctl:
+            self.nsteps += 1
+            self._fire_controls()
         return rec
+
+    def _fire_controls(self):
+        """Control requests placed at explicit positions of the history (scn['controls'])."""
+        d = self.d
+        while self.controls and self.controls[0][0] <= self.nsteps:
+            pos, kind = self.controls.pop(0)
+            s = d.status()
+            if kind == "pause" and s in (st.RUNNING, st.RESUMING):
+                self.step({"op": "req", "status": st.PAUSING}, _ctl=True)
+            elif kind == "pause2" and s in (st.RUNNING, st.RESUMING):
+                self.step({"op": "req", "status": st.PAUSED}, _ctl=True)
+            elif kind == "cancel" and s in (st.RUNNING, st.PAUSING, st.PAUSED, st.RESUMING):
+                self.step({"op": "req", "status": st.CANCELING}, _ctl=True)
+            elif kind == "cancel2" and s in (st.RUNNING, st.PAUSING, st.PAUSED, st.RESUMING):
+                self.step({"op": "req", "status": st.CANCELED}, _ctl=True)
+            elif kind == "resume" and s in (st.PAUSED, st.PAUSING) and self.pause_requested and not d.dormant:
+                self.step({"op": "req", "status": st.RESUMING}, _ctl=True)
+            elif kind == "restore":
+                self.step({"op": "restore"}, _ctl=True)
 
     def at_rest(self):
         return self.d.status() in provider.TERMINAL and self.d.quiescent()
@@ -132,6 +160,14 @@ class Run(object):
         if not d.started:
             d.start()
         steps = 0
+        # a scenario may carry an explicit history (hand-written pinned scenarios, shrunk replays)
+        for op in self.scn.get("history") or []:
+            if stop and stop(self):
+                break
+            if op["op"] == "done" and "status" not in op:
+                s_, r_ = self.outcome(op["a"])
+                op = dict(op, status=s_, result=r_)
+            self.step(op)
         for ch in self.scn.get("choices") or []:
             if steps >= f["max_steps"] or self.at_rest() or (stop and stop(self)):
                 break
